@@ -30,6 +30,10 @@ class SV:
         self.name = name
         self.tags = set()
         self.ghost = {}
+        SV._ncid += 1
+        self.cid = SV._ncid          # content identity: shared by copies, renewed by in-place writes
+
+    _ncid = 0
 
     # ---- helpers ---------------------------------------------------------------------------
     def g(self, i):
@@ -49,6 +53,7 @@ class SV:
         v = SV(self.n, self.at, self.kind, self.guard, "solver", self.arange)
         v.tags = set(self.tags)
         v.ghost = dict(self.ghost)
+        v.cid = self.cid
         return v
     _vcx_copy = copy
 
@@ -61,6 +66,8 @@ class SV:
                          note=f"in-place write to user-owned array {self.name}")
         self.at = at
         self.version += 1
+        SV._ncid += 1
+        self.cid = SV._ncid
         self.tags.clear()
         self.ghost.clear()
 
@@ -95,18 +102,29 @@ class SV:
         raise Unsupported("numpy conversion of a symbolic vector")
 
     # ---- elementwise arithmetic / comparison ----------------------------------------------------
-    def _bin(self, o, fn, kind=None, swap=False):
+    def _bin(self, o, fn, kind=None, swap=False, op=None):
         f = (lambda a, b: fn(b, a)) if swap else fn
-        return zipmap(f, self, o, kind)
+        r = zipmap(f, self, o, kind)
+        if op is not None:
+            # structural content identity: the same arithmetic expression over the same contents denotes the same vector
+            ok = getattr(o, "cid", None)
+            if ok is None:
+                if isinstance(o, (int, float)):
+                    ok = ("const", float(o))
+                elif isinstance(o, SF):
+                    ok = ("sf", o.r.get_id(), o.nan.get_id())
+            if ok is not None:
+                r.cid = (op, ok, self.cid) if swap else (op, self.cid, ok)
+        return r
 
-    def __add__(s, o): return s._bin(o, lambda a, b: a + b)
-    def __radd__(s, o): return s._bin(o, lambda a, b: a + b, swap=True)
-    def __sub__(s, o): return s._bin(o, lambda a, b: a - b)
-    def __rsub__(s, o): return s._bin(o, lambda a, b: a - b, swap=True)
-    def __mul__(s, o): return s._bin(o, lambda a, b: a * b)
-    def __rmul__(s, o): return s._bin(o, lambda a, b: a * b, swap=True)
-    def __truediv__(s, o): return s._bin(o, lambda a, b: a / b)
-    def __rtruediv__(s, o): return s._bin(o, lambda a, b: a / b, swap=True)
+    def __add__(s, o): return s._bin(o, lambda a, b: a + b, op="add")
+    def __radd__(s, o): return s._bin(o, lambda a, b: a + b, swap=True, op="add")
+    def __sub__(s, o): return s._bin(o, lambda a, b: a - b, op="sub")
+    def __rsub__(s, o): return s._bin(o, lambda a, b: a - b, swap=True, op="sub")
+    def __mul__(s, o): return s._bin(o, lambda a, b: a * b, op="mul")
+    def __rmul__(s, o): return s._bin(o, lambda a, b: a * b, swap=True, op="mul")
+    def __truediv__(s, o): return s._bin(o, lambda a, b: a / b, op="div")
+    def __rtruediv__(s, o): return s._bin(o, lambda a, b: a / b, swap=True, op="div")
     def __pow__(s, p): return s.map(lambda a: a ** p)
     def __neg__(s): return s.map(lambda a: -a)
     def __abs__(s): return s.map(lambda a: abs(a))
@@ -623,7 +641,7 @@ def dot(a, b):
         return a.ghost["sqnorm"]          # v @ v of a vector whose squared norm is given by a callee contract
     if isinstance(a, SV) and isinstance(b, SV):
         _align(a, b)
-    key = ("dot", id(a), getattr(a, "version", 0), id(b), getattr(b, "version", 0))
+    key = ("dot", getattr(a, "cid", id(a)), getattr(b, "cid", id(b)))
     if key in c.ghost:
         return c.ghost[key][2]
     nm = c.fresh_name("dot")
